@@ -175,6 +175,7 @@ def drive(recipe):
     import warnings
     import logging
     logging.disable(logging.CRITICAL)
+    from chmpy.crystal.unit_cell import UnitCell  # noqa: F401  (an import failure is machinery, not an observation)
     G = recipe["G"] if recipe["kind"] == "G" else gram_of(recipe["L"])
     t = {"kind": recipe["kind"], "L": recipe.get("L") or [[0] * 3] * 3, "G": G,
          "sn": recipe["sn"], "sd": recipe["sd"], "family": recipe["family"],
